@@ -3,7 +3,11 @@ package c01
 
 import (
 	"fmt"
+	"os"
+	"os/exec"
+	"path/filepath"
 	"runtime"
+	"strings"
 	"sync"
 
 	"verif/ref"
@@ -170,6 +174,10 @@ func (a *covAgg) add(net *sim.Net, lc *sim.Coverage, res sim.SyncResult, control
 
 func Run(c *verdict.Ctx) int {
 	c.Level = "exploration"
+	if os.Getenv("VERIF_C01_STAGE") == "net4" {
+		runNet4Stage(c)
+		return c.Finish(0)
+	}
 	c.Rule = "one case = one seeded execution of 4-7 real consensus.State machines under the asynchronous adversary (reorder, duplicate, drop, partition, early timeouts, faulty validators with < 1/3 power equivocating / withholding / proposing invalid blocks / forging) followed by a synchronous suffix; non-trivial = at least one height decided AND the adversary used a partition or a faulty validator's message; distinct by (config, delivered, timeouts)"
 	c.Assume("message transport and timers are replaced by the scheduler; the transition function is the real consensus/state.go, vote sets, executor, stores, evidence pool",
 		"reference commit tally ref/tally.go; ed25519; ValidateBlock re-run on a pristine pre-state copy decides validity (its exactness is C06)")
@@ -204,10 +212,43 @@ func Run(c *verdict.Ctx) int {
 	}
 	close(jobs)
 	wg.Wait()
+	// net4: real reactors, real timers (race-built child when available)
+	runNet4Stage(c)
 	c.Count("control.forks_seen", forks)
 	c.Set("distinct_step_lock_valid_proposal_pol_tuples", len(cov.tuples))
 	if forks == 0 {
 		c.HarnessError("control group (faulty power >= 1/3) produced no disagreement: the agreement monitor was not shown to be able to see a fork")
 	}
 	return c.Finish(n / 4)
+}
+
+func runNet4Stage(c *verdict.Ctx) {
+	if os.Getenv("VERIF_C01_STAGE") == "" && os.Getenv("VERIF_RACE_BIN") != "" {
+		tmp := verdict.TmpDir("c01-net4-")
+		defer os.RemoveAll(tmp)
+		evp := filepath.Join(tmp, "evidence.json")
+		cmd := exec.Command(os.Getenv("VERIF_RACE_BIN"), "--tier", c.Tier, "C01")
+		cmd.Env = append(os.Environ(), "VERIF_C01_STAGE=net4", "VERIF_EVIDENCE_PATH="+evp, "GORACE=halt_on_error=0 log_path="+filepath.Join(tmp, "race"))
+		ef, _ := os.Create(filepath.Join(tmp, "stderr"))
+		cmd.Stdout, cmd.Stderr = os.Stdout, ef
+		_ = cmd.Run()
+		ef.Close()
+		if err := c.MergeChild(evp, ""); err != nil {
+			// a crash of the child is not an agreement violation: count it, keep the verdict of the simulator stages
+			c.Count("net4.child_crashed", 1)
+			c.Inconclusive("net4 child stage produced no evidence")
+			return
+		}
+		logs, _ := filepath.Glob(filepath.Join(tmp, "race.*"))
+		n := 0
+		for _, l := range logs {
+			b, _ := os.ReadFile(l)
+			n += strings.Count(string(b), "WARNING: DATA RACE")
+		}
+		c.Count("net4.race_reports(diagnostic)", int64(n))
+		return
+	}
+	for i := 0; i < c.N(3, 60); i++ {
+		runNet4(c, i)
+	}
 }
